@@ -349,6 +349,21 @@ func (e *provEnv) compute(v ssa.Value) *provInfo {
 			return newInfo()
 		}
 		if cell := localRoot(x.X); cell != nil {
+			// a field read straight off a local struct whose address stays in this function: only what
+			// was stored into that field (or the whole struct) can be read back
+			if fa, ok := x.X.(*ssa.FieldAddr); ok && fa.X == cell {
+				if al, isAlloc := cell.(*ssa.Alloc); isAlloc {
+					if vals, ok := fieldStores(al, fa.Field); ok {
+						i := newInfo()
+						for _, sv := range vals {
+							if hasPointers(sv.Type()) {
+								i.add(e.of(sv))
+							}
+						}
+						return e.withProt(i, fa.X.Type(), fieldName(fa.X.Type(), fa.Field))
+					}
+				}
+			}
 			i := newInfo()
 			for _, sv := range e.storesInto(cell) {
 				if hasPointers(sv.Type()) {
@@ -762,4 +777,62 @@ func filterBases(info *provInfo, target ssa.Value) *provInfo {
 		out.bases[b] = true
 	}
 	return out
+}
+
+// fieldStores: the values stored into field `field` of the local struct cell —
+// directly, into its sub-addresses, or as part of a whole-struct store — when
+// the cell's address is used for nothing but field/element addressing, loads
+// and stores (so nothing else can write it). ok is false otherwise.
+func fieldStores(al *ssa.Alloc, field int) ([]ssa.Value, bool) {
+	var out []ssa.Value
+	ok := true
+	var sub func(addr ssa.Value, collect bool)
+	sub = func(addr ssa.Value, collect bool) {
+		refs := addr.Referrers()
+		if refs == nil {
+			return
+		}
+		for _, r := range *refs {
+			switch x := r.(type) {
+			case *ssa.Store:
+				if x.Addr == addr {
+					if collect {
+						out = append(out, x.Val)
+					}
+				} else {
+					ok = false // the address itself is stored somewhere
+				}
+			case *ssa.UnOp:
+				// a load
+			case *ssa.FieldAddr:
+				sub(x, collect)
+			case *ssa.IndexAddr:
+				sub(x, collect)
+			case *ssa.DebugRef:
+			default:
+				ok = false
+			}
+		}
+	}
+	refs := al.Referrers()
+	if refs == nil {
+		return nil, false
+	}
+	for _, r := range *refs {
+		switch x := r.(type) {
+		case *ssa.Store:
+			if x.Addr == ssa.Value(al) {
+				out = append(out, x.Val) // whole-struct store: may carry the field
+			} else {
+				ok = false
+			}
+		case *ssa.UnOp:
+		case *ssa.FieldAddr:
+			sub(x, x.Field == field)
+		case *ssa.DebugRef:
+		default:
+			ok = false
+		}
+	}
+	return out, ok
 }
